@@ -46,8 +46,8 @@ PROPS["C07"] = dict(
 )
 
 PROPS["C10"] = dict(
-    modules=["Proofs.C10", "Proofs.C10Full", "Proofs.C10Trunc", "Proofs.C10Trans"],
-    theorems=['Goflow.C10.parser_table_matches', 'Goflow.C10.guards_cover_indices', 'Goflow.C10.encap_preserves_outer', 'Goflow.C10.icmp_terminal', 'Goflow.C10.icmp_first_only', 'Goflow.C10.encap_rule', 'Goflow.C10.encap_monotone', 'Goflow.C10.layer_sizes',
+    modules=["Proofs.C10", "Proofs.C10Full", "Proofs.C10Trunc", "Proofs.C10Trans", "Proofs.C09Pad"],
+    theorems=["Goflow.C09Pad.raw_header_dissects_capture", 'Goflow.C10.parser_table_matches', 'Goflow.C10.guards_cover_indices', 'Goflow.C10.encap_preserves_outer', 'Goflow.C10.icmp_terminal', 'Goflow.C10.icmp_first_only', 'Goflow.C10.encap_rule', 'Goflow.C10.encap_monotone', 'Goflow.C10.layer_sizes',
               'Goflow.C10.full_capture', 'Goflow.C10.full_capture_cfg', 'Goflow.C10.full_capture_plain', 'Goflow.C10.full_capture_v6ext', 'Goflow.C10.full_capture_mpls', 'Goflow.C10.full_capture_tunnel',
               'Goflow.C10.sampleFrame_wf', 'Goflow.C10.sampleTunnel_wf',
               'Goflow.C10.trunc_capture_cfg', 'Goflow.C10.trunc_capture_eq', 'Goflow.C10.expectedAt_mono', 'Goflow.C10.expectedAt_full', 'Goflow.C10.expectedAt_below',
@@ -79,8 +79,8 @@ PROPS["C08"] = dict(
 )
 
 PROPS["C09"] = dict(
-    modules=["Proofs.C09", "Proofs.C09Trans"],
-    theorems=["Goflow.C09Trans.parseSampledHeaderConfig_eq", "Goflow.C09Trans.case_sampledHeader", "Goflow.C09Trans.case_sampledIPv4", "Goflow.C09Trans.case_sampledIPv6", "Goflow.C09Trans.case_extendedRouter", "Goflow.C09Trans.case_extendedSwitch", "Goflow.C09Trans.case_extendedGateway", "Goflow.C09Trans.loop1_eq", "Goflow.C09Trans.searchSFlowSampleConfig_eq", "Goflow.C09Trans.searchSFlowSampleConfig_convertSample", "Goflow.C09Trans.getSFlowFlowSamples_eq", "Goflow.C09Trans.convertSamples_translated", 'Goflow.C09.record_eq_ref', 'Goflow.C09.records_eq_ref', 'Goflow.C09.sample_eq_ref', 'Goflow.C09.expanded_sample_eq_ref', 'Goflow.C09.non_flow_samples_yield_nothing', 'Goflow.C09.as_rules', 'Goflow.C09.conversion_source_matches'],
+    modules=["Proofs.C09", "Proofs.C09Trans", "Proofs.C09Pad"],
+    theorems=["Goflow.C09Pad.raw_header_dissects_capture", "Goflow.C09Pad.short_announced_length", "Goflow.C09Pad.long_announced_length", "Goflow.C09Trans.parseSampledHeaderConfig_eq", "Goflow.C09Trans.case_sampledHeader", "Goflow.C09Trans.case_sampledIPv4", "Goflow.C09Trans.case_sampledIPv6", "Goflow.C09Trans.case_extendedRouter", "Goflow.C09Trans.case_extendedSwitch", "Goflow.C09Trans.case_extendedGateway", "Goflow.C09Trans.loop1_eq", "Goflow.C09Trans.searchSFlowSampleConfig_eq", "Goflow.C09Trans.searchSFlowSampleConfig_convertSample", "Goflow.C09Trans.getSFlowFlowSamples_eq", "Goflow.C09Trans.convertSamples_translated", 'Goflow.C09.record_eq_ref', 'Goflow.C09.records_eq_ref', 'Goflow.C09.sample_eq_ref', 'Goflow.C09.expanded_sample_eq_ref', 'Goflow.C09.non_flow_samples_yield_nothing', 'Goflow.C09.as_rules', 'Goflow.C09.conversion_source_matches'],
     generators=[dict(name="C09", quick=800, thorough=40000)],
     harness=["impl"],
     level_text="Theorems: record_eq_ref, records_eq_ref, sample_eq_ref, expanded_sample_eq_ref, non_flow_samples_yield_nothing, as_rules — sFlow samples map as documented for every sample and record list (frames inside raw headers are C10's subject). The conversion itself (ParseSampledHeaderConfig, SearchSFlowSampleConfig with every arm of its record switch, GetSFlowFlowSamples) is TRANSLATED from producer_sf.go on every run and proved equal to the model (C09Trans: searchSFlowSampleConfig_eq, case_* per record kind, convertSamples_translated).",
